@@ -83,6 +83,11 @@ def skeletons(tier):
     for f_ in sq["funcs"][1:]:
         f_["as_closure"] = True
     progs.append(("same-qualname-helpers", sq))
+    # the first evaluation after every edit is a top-level batch / range call (then the plain call)
+    for form_ in ("batch", "range"):
+        progs.append(("first-call-is-%s" % form_, {
+            "funcs": [mkfunc("R", calls=[call("D")], reads=["G"], rich=False), mkfunc("D", kind="plain", reads=["G"], rich=False)],
+            "vars": {"G": 5}, "first_call": form_}))
     # several tracked variables holding equal values: an edit may give one the value another one has (or had)
     progs.append(("equal-valued-vars", {
         "funcs": [mkfunc("R", calls=[call("D")], reads=["V1", "V2", "V3"], rich=False),
@@ -113,6 +118,8 @@ def calls_for(prog):
         if f["kind"] == "memento" and f["module"] == "a":
             calls.append((f["name"], (1,), {}, None))
             calls.append((f["name"], (), {}, None))
+    if prog.get("first_call"):
+        calls.insert(0, ("R", (1,), {}, prog["first_call"]))
     if prog.get("callee_first"):
         return [("H", (1,), {}, None), ("R", (1,), {}, None), ("R", (), {}, None), ("H", (), {}, None)]
     if prog.get("hidden"):
